@@ -6,6 +6,7 @@ a 7-tag universe (complete truth table, 128 rows) vs. what behave's parsed objec
 from __future__ import annotations
 
 import random
+import re
 
 from ..gen import tagexpr as T
 
@@ -29,7 +30,7 @@ ASSUMPTIONS = [
 ]
 REQUIRED = {"v2.meaning": {"quick": 3000, "thorough": 100000}, "v2.print_roundtrip": {"quick": 3000, "thorough": 100000},
             "v2.config_substitution": 100, "v2.empty_selects_all": 3, "v2.list_form": 300, "v2.wip_adds_wip_term": 100, "v2.config_file_tags": 100, "v2.meaning_for_special_tag_names": 400, "v2.list_form_default_protocol": 500, "v2.meaning_for_any_iterable_of_tags": 1000}
-REQUIRED_SEEN = {"terms_given_as": ["list", "tuple"], "tag_name_class": ["compatibility_characters", "needs_escape"], "list_terms_shape": ["same_words_other_parentheses"], "console_encoding": ["cp1252", "latin-1", "cp850", "ascii", "utf-8"],
+REQUIRED_SEEN = {"terms_given_as": ["list", "tuple"], "command_line_string": ["with_backslash", "without_backslash"], "protocol_given_by": ["name_in_the_file", "keyword"], "tag_name_class": ["compatibility_characters", "needs_escape"], "list_terms_shape": ["same_words_other_parentheses"], "console_encoding": ["cp1252", "latin-1", "cp850", "ascii", "utf-8"],
                  "tags_given_as": ["generator", "iter", "map", "tuple", "frozenset", "dict_keys", "reversed"], "default_protocol_list_shape": ["only_single_tags"], "config_list_shape": ["placeholder_after_plain_part", "other"], "config_file_kind": ["toml", "ini"], "config_file_tag_names": ["with_hash_character", "ordinary"],
                  "config_file_mode": ["none", "plain", "placeholder", "placeholder_and_plain", "wip"]}
 EXHAUSTIVE = {"quick": True, "thorough": True}
@@ -42,6 +43,27 @@ NSHARDS = {"quick": 8, "thorough": 16}
 def plan(tier, seed):
     n = NSHARDS[tier]
     return [{"shard": i, "of": n, "seed": seed * 1000 + i} for i in range(n)]
+
+
+def classify(name, w):
+    """Known finding (DESIGN section 3): under AUTO_DETECT configured tags that are several plain single tags are an old-style
+    expression, whose text form cannot stand for it behind the {config.tags} placeholder."""
+    if name == "v2.config_file_tags" and isinstance(w, dict):
+        case = w.get("case") or {}
+        content = case.get("content") or ""
+        cfg = w.get("config_tags")
+        if cfg is None:
+            # (the run ended in an error: read the configured terms off the file content)
+            m = re.search(r'^tags = \[(.*)\]$', content, re.M)
+            if m:
+                cfg = [t.strip().strip('"') for t in m.group(1).split(",")]
+            else:
+                m = re.search(r"^tags = (.*(?:\n[ \t]+.*)*)", content, re.M)
+                cfg = [t.strip() for t in m.group(1).split("\n")] if m else None
+        if re.search(r'tag_expression_protocol = "?auto_detect', content) and any("{config.tags}" in a for a in case.get("args") or []) \
+                and isinstance(cfg, (list, tuple)) and len(cfg) >= 2 and all(re.match(r"^@?[^\s()@]+$", t) and t.lstrip("@") not in ("and", "or", "not") for t in cfg):
+            return "config-tags-placeholder-with-several-plain-terms-under-autodetect"
+    return name
 
 
 class Lab(object):
@@ -245,6 +267,42 @@ def check_default_protocol_lists(lab, mon, rng):
             mon.check("v2.list_form_default_protocol", False, dict(case=case, error=repr(ex)))
 
 
+def check_string_command_line(lab, mon, rng):
+    """The command line handed over as ONE string (Configuration("..."), behave.__main__.main("...")): shell-style quoting keeps an
+    expression with blanks together -- whatever else the string contains (a Windows path in a -D definition, ...)."""
+    from behave.configuration import Configuration
+    ast = T.random_tree(rng, OPERANDS, rng.choice([1, 2]), nary=True)
+    text = T.render_v2(ast, rng, rng.choice(["min", "full"]), rng.choice([True, False]))
+    if "'" in text or '"' in text or "\\" in text:
+        return
+    q = rng.choice(["'", '"'])
+    spelling = rng.choice(["--tags=%s%s%s", "--tags %s%s%s", "-t %s%s%s"]) % (q, text, q)
+    extras = rng.sample(["-D 'outdir=C:\\temp\\reports'", "-D name=value", "--no-color", "-D \"pattern=\\d+\"", "--no-summary"], rng.randint(0, 2))
+    parts = extras + [spelling]
+    rng.shuffle(parts)
+    line = " ".join(parts)
+    want = T.truth_table(ast, SUBSETS)
+    case = {"kind": "command-line-as-one-string", "ast": ast, "text": line}
+    mon.case(case, True)
+    mon.seen("command_line_string", "with_backslash" if "\\" in line else "without_backslash")
+    saved = getattr(lab.P, "_current", None)
+    try:
+        c = Configuration(line, load_config=False, tag_expression_protocol=lab.P.V2)
+        got = T.truth_table_of(c.tag_expression.check, SUBSETS)
+        mon.check("v2.command_line_as_one_string", got == want, lambda: dict(case=case, want=want, got=got, parsed=repr(c.tag_expression), tags=c.tags))
+    except BaseException as ex:
+        mon.check("v2.command_line_as_one_string", False, dict(case=case, error=repr(ex)))
+    finally:
+        if saved is None:
+            if hasattr(lab.P, "_current"):
+                try:
+                    delattr(lab.P, "_current")
+                except Exception:
+                    lab.P.use(lab.P.DEFAULT)
+        else:
+            lab.P.use(saved)
+
+
 def check_lookalike_terms(lab, mon, rng):
     """Several --tags terms that consist of the same words and differ only in their parentheses are DIFFERENT terms."""
     x, y, z = rng.sample(["a", "b", "a.b", "x-y", "k=v", "A"], 3)
@@ -366,7 +424,7 @@ HASH_UNIVERSE = ["c#", "f#", "issue#12", "smoke", "c", "issue"]
 HASH_SUBSETS = list(T.subsets(HASH_UNIVERSE))
 
 
-def check_config_files(lab, mon, rng, hash_names=False):
+def check_config_files(lab, mon, rng, hash_names=False, directed=False):
     """Tags written into a configuration file (behave.ini / setup.cfg / pyproject.toml): without --tags they are the
     expression; with --tags the command line is the expression and {config.tags} in it stands for the file's tags."""
     import os
@@ -384,15 +442,25 @@ def check_config_files(lab, mon, rng, hash_names=False):
         operands = HASH_UNIVERSE if hash_names else OPERANDS      # (issue-reference style names: a '#' is an ordinary tag character)
         cfg_terms = [T.random_tree(rng, operands, rng.choice([1, 1, 2]), nary=True) for _ in range(rng.choice([1, 1, 2]))]
         cfg_texts = [T.render_v2(t, rng, "full", rng.choice([True, False])) for t in cfg_terms]
+        if directed:
+            # the most common configuration: a few plain tags, one per line, and-ed
+            cfg_terms = [["lit", t] for t in rng.sample(["a", "b", "A", "ab"], 2)]
+            cfg_texts = ["@" + t[1] for t in cfg_terms]
         cfg_ast = ["and"] + cfg_terms if len(cfg_terms) > 1 else cfg_terms[0]
         kind = rng.choice(["behave.ini", "setup.cfg", "pyproject.toml", "pyproject.toml"])
         if kind == "pyproject.toml":
             body = "[tool.behave]\ntags = [%s]\n" % ", ".join('"%s"' % t for t in cfg_texts)
         else:
             body = "[behave]\ntags = %s\n" % "\n    ".join(cfg_texts)
+        # the dialect is given as a Configuration keyword -- or NAMED in the file (v2 / strict / auto_detect all read new-style text
+        # with its own meaning)
+        proto_name = rng.choice([None, None, "v2", "auto_detect", "strict", "V2"]) if not directed else "auto_detect"
+        if proto_name:
+            body += ('tag_expression_protocol = "%s"\n' if kind == "pyproject.toml" else "tag_expression_protocol = %s\n") % proto_name
+        mon.seen("protocol_given_by", "name_in_the_file" if proto_name else "keyword")
         with open(kind, "w") as fh:
             fh.write(body)
-        mode = rng.choice(["none", "plain", "placeholder", "placeholder_and_plain", "wip"])
+        mode = rng.choice(["none", "plain", "placeholder", "placeholder_and_plain", "wip"]) if not directed else "placeholder_and_plain"
         rest = T.random_tree(rng, operands, rng.choice([1, 2]), nary=True)
         rest_text = T.render_v2(rest, rng, "full", False)
         if mode == "none":
@@ -416,7 +484,7 @@ def check_config_files(lab, mon, rng, hash_names=False):
         mon.seen("config_file_kind", "toml" if kind.endswith(".toml") else "ini")
         mon.seen("config_file_mode", mode)
         try:
-            c = Configuration(list(args), tag_expression_protocol=lab.P.V2)
+            c = Configuration(list(args), tag_expression_protocol=lab.P.V2) if not proto_name else Configuration(list(args))
             got = T.truth_table_of(c.tag_expression.check, subs)
             mon.check("v2.config_file_tags", got == want,
                       lambda: dict(case=case, want=want, got=got, final=str(c.tag_expression), config_tags=c.config_tags, tags=c.tags))
@@ -521,7 +589,10 @@ def run(spec, mon):
         check_config(lab, mon, c, r, rng, j % len(TEMPLATES), as_list=("multi" if j % 3 == 1 else (j % 3 == 0)))
         check_wip(lab, mon, rng)
         check_config_files(lab, mon, rng, hash_names=(j % 3 == 1))
+        if j == 0:
+            check_config_files(lab, mon, rng, directed=True)
         check_lookalike_terms(lab, mon, rng)
+        check_string_command_line(lab, mon, rng)
         for label in sorted(NAME_CLASSES):
             check_name_class(lab, mon, rng, label)
         check_print_on_legacy_console(lab, mon, rng)
